@@ -51,6 +51,15 @@ pub struct UniCase {
     pub blocking: Option<u64>,
     pub limit: u64,
     pub harden: Harden,
+    /// every time value of both systems (and the limit) is multiplied by this factor (1 = as generated);
+    /// with a factor of about 10^3 the limits lie above the threshold up to which the crate's debug
+    /// builds cross-check the fixed-point search, so the value path of those builds is exercised
+    #[serde(default)]
+    pub factor: u64,
+    /// Some(x): the limit of both systems is placed at the fraction x / 2^16 of the bound that the harder
+    /// system gets under a generous limit (if it gets one), i.e. right where Ok and Err lie close together
+    #[serde(default)]
+    pub limit_frac: Option<u16>,
 }
 
 fn tgen(tier: Tier) -> TaskGen {
@@ -82,9 +91,33 @@ fn uni_strategy(tier: Tier) -> BoxedStrategy<UniCase> {
     )
         .prop_map(|(tasks, tua, analysis, blocking, limit, harden)| {
             let tua = tua % tasks.len();
-            UniCase { tasks, tua, analysis, blocking, limit, harden }
+            UniCase { tasks, tua, analysis, blocking, limit, harden, factor: 1, limit_frac: None }
         })
         .boxed()
+}
+
+fn uni_scaled_strategy(tier: Tier) -> BoxedStrategy<UniCase> {
+    (uni_strategy(tier), proptest::sample::select(vec![20_011u64, 100_003]), proptest::option::weighted(0.75, any::<u16>()))
+        .prop_map(|(mut c, f, frac)| {
+            c.factor = f;
+            c.limit_frac = frac;
+            c
+        })
+        .boxed()
+}
+
+fn scale_tasks(ts: &[TaskSpec], f: u64) -> Vec<TaskSpec> {
+    let mut big = ts.to_vec();
+    for t in big.iter_mut() {
+        crate::ros::stretch(&mut t.arr, f);
+        t.wcet *= f;
+        t.deadline *= f;
+        for sg in t.segs.iter_mut() {
+            *sg *= f;
+        }
+        t.max_np *= f;
+    }
+    big
 }
 
 /// apply the hardening; None if it does not apply to this case
@@ -171,6 +204,41 @@ fn check_uni(c: &UniCase) -> CheckResult {
         }
     };
     // FIFO and the EDF analyses have no blocking parameter / priorities
+    let f = c.factor.max(1);
+    if f > 1 {
+        // the same metamorphic relation on the systems with every time value multiplied by f
+        let (mut blim, mut hlim) = (c.limit, hlim);
+        let mut placed = false;
+        if let (Some(x), false) = (c.limit_frac, matches!(c.harden, Harden::LimitUp { .. })) {
+            if let Ok(Res::Ok(r)) = run_uni(&hts, c.analysis, c.tua, 3000, hblk) {
+                blim = 1 + ((x as u64 * r) >> 16);
+                hlim = blim;
+                placed = true;
+            }
+        }
+        let base = run_uni(&scale_tasks(&c.tasks, f), c.analysis, c.tua, blim * f, c.blocking.map(|b| b * f));
+        let hard = run_uni(&scale_tasks(&hts, f), c.analysis, c.tua, hlim * f, hblk.map(|b| b * f));
+        out.label_if(placed, "limit-placed-below-the-harder-bound");
+        let (base, hard) = match (base, hard) {
+            (Ok(b), Ok(h)) => (b, h),
+            _ => {
+                out.label("analysis-panicked(skipped)");
+                return Ok(out);
+            }
+        };
+        judge(
+            &format!("{} under {:?}, every time value and the limit {} multiplied by {}", c.analysis.name(), c.harden, blim, f),
+            &base,
+            &hard,
+            matches!(c.harden, Harden::LimitUp { .. }),
+        )?;
+        out.inner += 2;
+        out.nontrivial = base.ok().is_some() && hard.ok().is_some() && hard != base;
+        out.label_if(base.is_err(), "base-err");
+        out.label_if(base.ok().is_some() && hard.is_err(), "ok-to-err");
+        out.label_if(blim * f > 100_000, "limit>10^5");
+        return Ok(out);
+    }
     let base = run_uni(&c.tasks, c.analysis, c.tua, c.limit, c.blocking);
     let hard = run_uni(&hts, c.analysis, c.tua, hlim, hblk);
     let (base, hard) = match (base, hard) {
@@ -465,7 +533,7 @@ fn check_ros(c: &RosCase) -> CheckResult {
 pub fn def() -> PropertyDef {
     PropertyDef {
         id: "C17",
-        rule: "generated: a base analysis call (any of the nine uniprocessor analyses on task sets as C06, explicit or prescribed blocking, limit 3000 or small; any of the six ROS 2 analyses as C07 with scalar costs) plus ONE hardening: WCET +k (into a non-final segment), release jitter +k (clone_with_jitter), blocking +k, another task's non-preemptive segments lengthened, period -k, an added task / callback, weaker supply (budget -1, constrained deadline +1, dedicated -> Periodic(Q,P)), limit +k. Oracle (metamorphic): hard >= base; base Err => hard Err; limit +k reproduces every Ok exactly. Non-trivial: both Ok and the result changed. Inputs on which an analysis panics are skipped (C20). Distinct by case JSON.".into(),
+        rule: "generated: a base analysis call (any of the nine uniprocessor analyses on task sets as C06, explicit or prescribed blocking, limit 3000 or small; any of the six ROS 2 analyses as C07 with scalar costs) plus ONE hardening: WCET +k (into a non-final segment), release jitter +k (clone_with_jitter), blocking +k, another task's non-preemptive segments lengthened, period -k, an added task / callback, weaker supply (budget -1, constrained deadline +1, dedicated -> Periodic(Q,P)), limit +k. Oracle (metamorphic): hard >= base; base Err => hard Err; limit +k reproduces every Ok exactly. Non-trivial: both Ok and the result changed. Sub-check uniprocessor-scaled: the same relation on uniprocessor systems whose every time value (periods, jitters, delta-min entries, WCETs, segments, deadlines, blocking) and limit are multiplied by 20011 / 100003; in three quarters of the cases the common limit is placed at a generated fraction of the bound that the harder system obtains under a generous limit (where Ok and divergence lie next to each other), otherwise as generated; after scaling nearly all limits lie above 10^5 - the range in which the debug builds of the crate no longer cross-check the fixed-point search, so that a wrong value there surfaces as a value. Inputs on which an analysis panics are skipped (C20). Distinct by case JSON.".into(),
         assumptions: vec![
             "lengthening the analysed task's own last segment is not a hardening (it shortens the preemptable part), so a WCET increase goes into a non-final segment".into(),
             "ROS 2 analyses with scalar costs (as the property states)".into(),
@@ -473,6 +541,7 @@ pub fn def() -> PropertyDef {
         subchecks: vec![
             subcheck("uniprocessor", (2500, 80_000), uni_strategy, check_uni),
             subcheck("ros2", (1500, 50_000), ros_strategy, check_ros),
+            subcheck("uniprocessor-scaled", (1500, 40_000), uni_scaled_strategy, check_uni),
         ],
         extra: None,
     }
